@@ -16,6 +16,58 @@ class Return(Exception):
         self.v = v
 
 
+class NeedChoice(Exception):
+    """An undetermined comparison of a symbolic value: the driver (`explore`) forks on it."""
+    def __init__(self, key):
+        self.key = key
+
+
+def explore(run):
+    """run(choices: dict) -> result, raising NeedChoice for every comparison the choices do not decide yet.
+    Returns [(choices, result)] for every complete assignment reached."""
+    out, stack = [], [{}]
+    while stack:
+        a = stack.pop()
+        try:
+            out.append((a, run(a)))
+        except NeedChoice as n:
+            if len(a) > 12:
+                raise Unrecognised("too many undetermined comparisons")
+            stack.append({**a, n.key: True})
+            stack.append({**a, n.key: False})
+    return out
+
+
+class Env(dict):
+    """Lexical scope chain: lookups and assignments go to the scope that defines the name."""
+    def __init__(self, parent=None):
+        super().__init__()
+        self.parent = parent
+
+    def find(self, k):
+        e = self
+        while e is not None:
+            if dict.__contains__(e, k):
+                return e
+            e = e.parent
+        return None
+
+    def __contains__(self, k):
+        return self.find(k) is not None
+
+    def __getitem__(self, k):
+        e = self.find(k)
+        if e is None:
+            raise KeyError(k)
+        return dict.__getitem__(e, k)
+
+    def assign(self, k, v):
+        e = self.find(k)
+        if e is None:
+            raise Unrecognised(f"assignment to unbound local {k}")
+        dict.__setitem__(e, k, v)
+
+
 class Evaluator:
     def __init__(self, facts, crate, atoms, env_vars=None, inline_crates=()):
         self.facts = facts
@@ -24,10 +76,16 @@ class Evaluator:
         self.env_vars = env_vars    # name -> None | str   (None = evaluator must not see var_os)
         self.inline_crates = set(inline_crates) | {crate}
         self.read_vars = []
+        self.choices = {}
+
+    def oracle(self, key):
+        if key not in self.choices:
+            raise NeedChoice(key)
+        return self.choices[key]
 
     def call_fn(self, crate, path, args):
         b = self.facts.body(crate, path)
-        env = {}
+        env = Env()
         for p, a in zip(b["params"], args):
             if p.get("k") == "pbind":
                 env[p["name"]] = a
@@ -63,7 +121,7 @@ class Evaluator:
                 return ("none",)
             return ("enum", p)
         if k == "block":
-            env = dict(env)
+            env = Env(env) if isinstance(env, Env) else Env(_as_env(env))
             v = ("unit",)
             for s in e.get("stmts", []):
                 self.stmt(s, env)
@@ -86,6 +144,10 @@ class Evaluator:
                 return ("bool", self.truth(self.ev(e["l"], env)) or self.truth(self.ev(e["r"], env)))
             if op in ("Eq", "Ne"):
                 l, r = self.ev(e["l"], env), self.ev(e["r"], env)
+                if l[0] == "sym" or r[0] == "sym":
+                    a, c = (l, r) if l[0] == "sym" else (r, l)
+                    eq = True if a == c else self.oracle((a[1], c))
+                    return ("bool", eq if op == "Eq" else not eq)
                 if l[0] in ("str", "int", "enum", "bool") and l[0] == r[0]:
                     eq = l[1] == r[1]
                     return ("bool", eq if op == "Eq" else not eq)
@@ -98,7 +160,7 @@ class Evaluator:
             c = hir.simp(e["c"])
             if c.get("k") == "letexpr":
                 v = self.ev(c["init"], env)
-                env2 = dict(env)
+                env2 = Env(env) if isinstance(env, Env) else Env(_as_env(env))
                 if self.bind(c["pat"], v, env2):
                     return self.ev(e["t"], env2)
                 return self.ev(e["e"], env) if "e" in e else ("unit",)
@@ -116,7 +178,7 @@ class Evaluator:
                 raise Unrecognised("? on a non-Option")
             v = self.ev(e["scrut"], env)
             for a in e["arms"]:
-                env2 = dict(env)
+                env2 = Env(env) if isinstance(env, Env) else Env(_as_env(env))
                 if self.bind(a["pat"], v, env2):
                     if "guard" in a and not self.truth(self.ev(a["guard"], env2)):
                         continue
@@ -125,6 +187,20 @@ class Evaluator:
         if k == "ret":
             raise Return(self.ev(e["e"], env) if "e" in e else ("unit",))
         if k == "tuple" and not e["es"]:
+            return ("unit",)
+        if k == "tuple":
+            return ("tuple",) + tuple(self.ev(x, env) for x in e["es"])
+        if k == "cast":
+            return self.ev(e["e"], env)
+        if k in ("assign",):
+            l = hir.simp(e["l"])
+            if l.get("k") != "local":
+                raise Unrecognised("assignment to a non-local place")
+            v = self.ev(e["r"], env)
+            if isinstance(env, Env):
+                env.assign(l["name"], v)
+            else:
+                env[l["name"]] = v
             return ("unit",)
         if k == "call":
             return self.call(e, env)
@@ -163,6 +239,8 @@ class Evaluator:
         if k == "por":
             return any(self.bind(q, v, env) for q in p["pats"])
         if k == "lit":
+            if p.get("t") == "int" and v[0] == "sym":
+                return self.oracle((v[1], ("int", p["v"])))
             if p.get("t") == "int":
                 return v[0] == "int" and v[1] == p["v"]
             if p.get("t") == "str":
@@ -176,7 +254,10 @@ class Evaluator:
         decl = hir.callee_decl(e)
         for name in (cal, decl):
             if name in self.atoms:
-                return self.atoms[name]
+                a = self.atoms[name]
+                if callable(a):
+                    return a([self.ev(x, env) for x in e["args"]])
+                return a
         if cal == "std::env::var_os":
             if self.env_vars is None:
                 raise Unrecognised("environment read where none was expected")
@@ -206,3 +287,10 @@ class Evaluator:
         if crate in self.inline_crates and cal in self.facts.crate(crate)["_bodies"]:
             return self.call_fn(crate, cal, args)
         raise Unrecognised(f"call to {cal}")
+
+
+def _as_env(d):
+    e = Env()
+    for k, v in d.items():
+        dict.__setitem__(e, k, v)
+    return e
